@@ -23,7 +23,7 @@ ASSUMPTIONS = ["vector-algebra oracle for angles on the sphere", "proper motions
                "as documented; linearity is judged by second differences over t, 2t, 3t"]
 
 J2000 = 2451545.0
-CENT = [0.0, 0.2884, -0.2884, 0.5, -0.5, 1.0, -1.0, 2.0, -2.0, 5.0, -5.0, 0.01, -0.01]
+CENT = [0.0, 0.2884, -0.2884, 0.5, -0.5, 1.0, -1.0, 2.0, -2.0, 5.0, -5.0, 0.01, -0.01, 4.0, -4.0]
 CENT_WIDE = CENT + [10.0, -10.0, 20.0, -20.0]
 LONS = [0.0, 41.0, 123.4, 200.0, 359.9]
 LATS = [90.0, 89.9, 89.0, 86.0, 85.1, 85.0, 84.9, 60.0, 30.0, 49.2, 0.0]
@@ -32,7 +32,7 @@ LATS = sorted(set(LATS + [-x for x in LATS]))
 
 def bound(tier):
     if tier == "thorough":
-        return "529 ordered pairs of 23 epochs x 360 directions; 125 epoch triples x 20 directions"
+        return "all ordered pairs of 57 epochs (J2000 +- 0..20 centuries, every whole century and the seam values) x 360 directions; 125 epoch triples x 20 directions"
     return "169 (289) ordered epoch pairs x 110 directions; 125 epoch triples x 20 directions"
 
 
@@ -139,7 +139,8 @@ def pair_cases(tier="quick"):
     out = []
     cents, lons, lats = CENT_WIDE, LONS, LATS
     if tier == "thorough":
-        cents = sorted(set(CENT_WIDE + [0.1, -0.1, 1.5, -1.5, 3.0, -3.0, 0.01, -0.01]))
+        cents = sorted(set(CENT_WIDE + [0.1, -0.1, 1.5, -1.5, 3.0, -3.0, 0.01, -0.01, 1e-4, -1e-4]
+                           + [float(c) for c in range(-20, 21)]))
         lons = [0.0, 41.0, 90.0, 123.4, 179.9, 200.0, 270.0, 315.5, 359.9, 1e-6]
         lats = sorted(set(LATS + [88.0, -88.0, 85.001, -85.001, 84.999, -84.999, 75.0, -75.0, 45.0, -45.0, 15.0, -15.0,
                                   1e-6, -1e-6]))
